@@ -157,7 +157,9 @@ def judge_call(ctx, t, name, v, expect, entry, base_attrs=None):
         if entry == 'ctor':
             result = Message(t, **{**base_attrs, name: v})
         elif entry == 'copy':
-            result = base.copy(**{name: v})
+            # (the flag by keyword, by position, or left out: checks are on in all three)
+            style = (len(name) + len(t)) % 3
+            result = base.copy(**{name: v}) if style == 0 else base.copy(False, **{name: v}) if style == 1 else base.copy(skip_checks=False, **{name: v})
         elif entry == 'setattr':
             setattr(base, name, v)
             result = base
